@@ -98,6 +98,39 @@ def make(clean=False, jobs=16, timeout=1500):
         return r.returncode == 0, r.stdout + r.stderr, time.time() - t0
 
 
+def clean_rebuild_and_chk(pid, timeout=1500):
+    """Thorough tier: copy the .v sources to a scratch dir under /verif/build, build from
+    clean, run the independent checker coqchk -o on Props/<pid>.vo; returns (ok, summary, secs)."""
+    import shutil
+    t0 = time.time()
+    d = os.path.join(BUILD, f"clean_{pid}")
+    shutil.rmtree(d, ignore_errors=True)
+    os.makedirs(d)
+    try:
+        for root, dirs, files in os.walk(COQ):
+            rel = os.path.relpath(root, COQ)
+            for f in files:
+                if f.endswith(".v") or f == "_CoqProject":
+                    os.makedirs(os.path.join(d, rel), exist_ok=True)
+                    shutil.copy(os.path.join(root, f), os.path.join(d, rel, f))
+        r = subprocess.run("coq_makefile -f _CoqProject -o Makefile && make -j16", shell=True, cwd=d,
+                           capture_output=True, text=True, timeout=timeout)
+        if r.returncode != 0:
+            return False, "clean build failed: " + (r.stdout + r.stderr)[-1200:], time.time() - t0
+        r = subprocess.run(["coqchk", "-o", "-R", ".", "BS", f"BS.Props.{pid}"], cwd=d,
+                           capture_output=True, text=True, timeout=timeout)
+        out = r.stdout + r.stderr
+        if r.returncode != 0 or "Modules were successfully checked" not in out:
+            return False, "coqchk failed: " + out[-1200:], time.time() - t0
+        summ = out[out.find("CONTEXT SUMMARY"):]
+        summ = " ".join(summ.split())
+        return True, summ, time.time() - t0
+    except subprocess.TimeoutExpired:
+        return False, "timeout", time.time() - t0
+    finally:
+        shutil.rmtree(d, ignore_errors=True)
+
+
 def check_props(pid, timeout=600):
     """Recompile Props/<pid>.v unconditionally; return {theorem: assumptions-text}
     plus ok flag and raw log.  'Closed under the global context' is the target."""
